@@ -33,6 +33,7 @@ MUTS = [
  ("C05", "empty_field_not_skipped", X, "                    if buf.len() == 1 {", "                    if buf.len() == 1 && self.rd.buffer().len() > 0 {"),
  ("C05", "quote_closed_by_any_quote", X, "(Some(Escape::Quote(quote)), c) if c == *quote => escape = None,", "(Some(Escape::Quote(quote)), c) if c == *quote || (c == b'\"' && i == 0) => escape = None,"),
  ("C05", "unterminated_quote_ok", X, "                    if let Some(Escape::Quote(q)) = &escape {", "                    if let (Some(Escape::Quote(q)), true) = (&escape, result.len() < 64) {"),
+ ("C05", "d_beats_0", X, "                > matches.indices_of(options::DELIMITER).unwrap().next_back()", "                < matches.indices_of(options::DELIMITER).unwrap().next_back()"),
  ("C05", "both_0_and_d_fall_back_to_whitespace", X, "        (Some(delimiter), true) => {\n            if matches", "        (Some(delimiter), true) if delimiter.is_ascii_punctuation() => None,\n        (Some(delimiter), true) => {\n            if matches"),
  # ---- C04
  ("C04", "chars_lt", X, "if can_be_passed && self.current_size + chars <= self.max_chars {", "if can_be_passed && self.current_size + chars < self.max_chars {"),
